@@ -6,6 +6,10 @@ NOTES = {
  "C01-a": "missed by the first version of the registry (tuples of arity 1-4, 12 and 16 only); the registry now holds every arity 1..=16 with pairwise distinguishable neighbouring fields",
  "C02-a": "the corrupted heap aborts the child process; the supervisor translates the fatal signal into a reproduced violation (added after mutant c02-arrayvec-no-forget showed the abort was reported as inconclusive)",
  "C14-a": "missed before the `writer-histories` sub-check existed (the frame checks only used writers that never failed); added: histories of writes on one Writer with failing encodes, over-long values and a failing sink",
+ "C01-b": "missed at first: registry values reach the encoder through `clone()`, which always yields a contiguous ring buffer; the VecDeque entries now build the deque with a chosen physical layout (contiguous / pushed at the front / sliding window) and the evidence classes report wrapped vs contiguous; Cow entries likewise cover Owned and Borrowed",
+ "C02-b": "missed at first: only owning tokenizers were driven past their first error; C02 (two new entry points), C11 (`arbitrary-bytes`, `short-inputs`) and C19 (Display of `Decoder::tokens()`) now also drive the borrowing forms `Decoder::tokens()` and `Tokenizer::from(&mut Decoder)`",
+ "C03-b": "missed at first: the inexact iterators were all `filter` adaptors, whose hint is (0, Some(n)); `iter-encoders` now wraps the iterator in a type reporting a generated truthful hint ((0,None), (k,None), (n,None), (0,Some(n)), (n,Some(n+d)), (k,Some(m)), exact) and also uses `flat_map`",
+ "C08-b": "missed at first: every nil-capable field of the schema grammar was either a literal `Option<..>` or carried a custom codec attribute; the grammar now also has a user type overriding `Encode::is_nil`/`Decode::nil`, a type alias of `Option<u8>`, and generic structs instantiated at `Option<u16>` (the false alarm this uncovered in the generator - `Option` around a transparent newtype of an `Option` - is excluded by construction, see DESIGN.md section 9)",
  "C20-a": "also reported by the no-alloc half of C06; needed the tightened difference rule r1 (a no-alloc skip may differ only by the documented refusal, never by position)",
 }
 rows = []
